@@ -7,6 +7,7 @@ def main():
     ap.add_argument("--tier", default=os.environ.get("VERIF_TIER", "quick"), choices=["quick", "thorough"])
     a = ap.parse_args()
     seed = int(os.environ.get("VERIF_SEED", "0"))
+    os.environ["VERIF_TIER"] = a.tier
     sys.path.insert(0, os.path.dirname(os.path.dirname(os.path.abspath(__file__))))
     try:
         mod = importlib.import_module(f"contracts.{a.pid.lower()}")
